@@ -59,6 +59,10 @@ def check(ck):
         _census(ck, repo)
     with ck.rule("R2"):
         _must_pass(ck, repo)
+        # the root-type existence clause judges the names as `extend schema` left them: the extension must store them
+        # whether or not the named type exists
+        from .c11 import schema_extension_merges
+        schema_extension_merges(ck, repo)
     with ck.rule("R3"):
         _clauses(ck, repo)
     with ck.rule("R4"):
